@@ -37,7 +37,8 @@
      (S) sender:    C01_sender_structure, C01_sender_ids_increase_partial /
                     _refuted (the C04 clause), C01_sender_exact,
                     C01_sender_strict_partial, C01_send_ids,
-                    C01_no_refuse_sent, C01_sent_init_first, C01_success_acked.
+                    C01_no_refuse_sent, C01_sent_init_first, C01_success_acked,
+                    C01_unstarted_reported_on_close, C01_closed_nothing_pending.
      (C) composition: C01_safety / C01_success_after_complete over the channel
          hypothesis "what an endpoint has acted on is a prefix of what its peer
          emitted" (prefix (handled sB) (sent sA), and the reverse direction),
@@ -262,6 +263,28 @@ Theorem C01_success_acked :
 Proof. exact success_acked. Qed.
 Print Assumptions C01_success_acked.
 
+(* A closed connection leaves no accepted transfer unreported.  The ids handed
+   out by send_bundle_data are 1..|queued| (C01_send_ids).  After a close, each
+   of them either was started (a "send started" signal was emitted: its outcome
+   is then decided by the segments and acknowledgements), or was reported with a
+   "send finished" signal carrying length 0 and the 'session terminating'
+   result, or was refused by the peer (an XFER_REFUSE for it was handled, which
+   reports it with the 'refused' result); and nothing is left waiting to start. *)
+Theorem C01_unstarted_reported_on_close :
+  forall (c : cfg) (ops : list op),
+    closed (run c ops) = true ->
+    forall id : N, 1 <= id <= N.of_nat (length (queued c ops)) ->
+      (exists len, In (ESig SigSendStarted [PStrNum id; PInt len]) (trace (run c ops))) \/
+      In (ESig SigSendFinished [PStrNum id; PInt 0; PStr RES_TERMINATING]) (trace (run c ops)) \/
+      (exists r, In (FMsg (MXferRefuse r id)) (handled (run c ops))).
+Proof. exact unstarted_reported_on_close. Qed.
+Print Assumptions C01_unstarted_reported_on_close.
+
+Theorem C01_closed_nothing_pending :
+  forall (c : cfg) (ops : list op), closed (run c ops) = true -> pend_start (run c ops) = [].
+Proof. exact closed_nothing_pending. Qed.
+Print Assumptions C01_closed_nothing_pending.
+
 (* ===================== (C) composition ===================== *)
 
 (* C01 safety.  A and B are the two ends of a session, each after an arbitrary
@@ -415,6 +438,19 @@ Example C01_ex_send_while_terminating :
   /\ send_ids (trace (run ex_cA ex_ops_term)) = [1]
   /\ last (trace (run ex_cA ex_ops_term)) EClosed = EExc EX_RUNTIME
   /\ map fst (pend_start (run ex_cA ex_ops_term)) = [1].
+Proof. vm_compute. repeat split; reflexivity. Qed.
+
+(* two bundles queued before the session is established, then the user closes:
+   both are reported as finished with the 'terminating' result, before EClosed *)
+Definition ex_ops_close : list op := [OStart; OSend [1]; OSend [2;2]; OClose].
+Example C01_ex_close_reports_unstarted :
+  closed (run ex_cA ex_ops_close) = true
+  /\ queued ex_cA ex_ops_close = [[1]; [2;2]]
+  /\ filter note (trace (run ex_cA ex_ops_close))
+     = [ESig SigSendFinished [PStrNum 1; PInt 0; PStr RES_TERMINATING];
+        ESig SigSendFinished [PStrNum 2; PInt 0; PStr RES_TERMINATING]]
+  /\ last (trace (run ex_cA ex_ops_close)) (EExc 0) = EClosed
+  /\ tx_map (run ex_cA ex_ops_close) = [].
 Proof. vm_compute. repeat split; reflexivity. Qed.
 
 (* the zero-segment-size run: the peer announces segment MRU 0 *)
